@@ -8,6 +8,7 @@ import Pokerface.Model.View
 import Pokerface.Model.SeatManager
 import Pokerface.Model.Regulator
 import Pokerface.Model.Table
+import Pokerface.Model.TableDriver
 import Pokerface.Generated.Tables
 /-
   Line-protocol driver: replays the harness's input lines on the model and prints
@@ -145,12 +146,14 @@ def playerStr (p : Player) : String :=
     | some c => s!"{k}.comb.type={(c.cat.map catSymbol).getD "-"} {k}.comb.power={c.power} {k}.comb.cards={cardsStr c.cards}"
   s!"{k}.pos={if pos == "" then "-" else pos} {k}.acted={b01 p.acted} {k}.fold={b01 p.fold} {k}.allowed={joinList (p.allowed.map actName) "|"} {k}.bank={p.bankroll} {k}.init={p.initial} {k}.stack={p.stack} {k}.pot={p.pot} {k}.wager={p.wager} {k}.hole={cardsStr p.hole} {comb}"
 
-def gameStr (tag : String) (g : Game) (e : String) : String :=
+def gameBody (g : Game) : String :=
   let ps := " ".intercalate (g.players.map playerStr)
   let res := match g.result with
     | none => "res=- winners=-"
     | some r => s!"res={resultStr r} winners={winnersStr r}"
-  s!"{tag} err={e} ev={evName g.event} round={roundName g.round} n={g.n} minibet={g.miniBet} cw={g.cw} prev={g.prev} roundpot={g.roundPot} raiser={g.raiser} cur={g.cur} pos={g.deckPos} board={cardsStr g.board} burned={cardsStr g.burned} decklen={g.opts.deck.length} pots={potsStr g.pots} {ps} {res}"
+  s!"ev={evName g.event} round={roundName g.round} n={g.n} minibet={g.miniBet} cw={g.cw} prev={g.prev} roundpot={g.roundPot} raiser={g.raiser} cur={g.cur} pos={g.deckPos} board={cardsStr g.board} burned={cardsStr g.burned} decklen={g.opts.deck.length} pots={potsStr g.pots} {ps} {res}"
+
+def gameStr (tag : String) (g : Game) (e : String) : String := s!"{tag} err={e} {gameBody g}"
 
 def parseSeat (s : String) : SeatCfg :=
   match s.splitOn ":" with
@@ -274,12 +277,37 @@ def mtStr (sm : SM) (e : Option SMErr) : String :=
   let seats := sm.seats.map fun s => s!"{optNat s.player}/{b01 s.active}/{b01 s.reserved}"
   s!"mt err={smErrName e} seats={joinList seats} count={sm.playerCount} players={joinList (sm.seats.filterMap fun s => s.player.map toString)}"
 
+/-! ### the table's driver of a hand (table/game.go; Model/TableDriver.lean)  [hv-drv] -/
+
+def fireName : Drv.Fire → String
+  | .readyForAll => "readyForAll" | .payAnte => "payAnte" | .payBlinds => "payBlinds"
+
+def dErrName : Option Drv.DErr → String
+  | none => "ok"
+  | some .noRunningGame => "noRunningGame" | some .playerNotInGame => "playerNotInGame"
+  | some .invalidAction => "invalidAction"
+  | some (.engine e) => "engine:" ++ errName (some e)
+
+def sortNat (l : List Nat) : List Nat := (l.toArray.qsort (· < ·)).toList
+
+def groupStr : Option Drv.Group → String
+  | none => "none"
+  | some g =>
+    let ps := (g.parts.toArray.qsort (fun a b => a.1 < b.1)).toList
+    s!"{fireName g.fire}/{b01 g.completed}/{joinList (ps.map fun (i, f) => s!"{i}:{b01 f}") "+"}"
+
+/-- ONE canonical observation of the driver: error class of the call, closed, updates, group, ready marks, then the held
+    engine state `d.gs` in the engine's observation format (same field names, so that the masks of `check` apply). -/
+def drvStr (d : Drv.D) (e : Option Drv.DErr) : String :=
+  s!"drv err={dErrName e} closed={b01 d.closed} updates={d.updates} group={groupStr d.group} readyMarks={joinList ((sortNat d.readyMarks).map toString)} {gameBody d.gs}"
+
 structure DState where
   game : Option Game := none
   sm : SM := SM.new 0
   rg : Reg := { max := 9, min := 6 }
   tb : Table := Table.new 0 {}
   mt : SM := SM.new 0
+  drv : Option Drv.D := none   -- [hv-drv] the driver of a hand
   saved : Option Game := none   -- `hop save`: the checkpoint a later `hop rollback` returns to
 
 def stepLine (s : DState) (line : String) : DState × String :=
@@ -329,6 +357,22 @@ def stepLine (s : DState) (line : String) : DState × String :=
     match s.game with
     | some g => ({ s with game := some g.hop }, "ok")
     | none => (s, "bad")
+  | "drv" :: "new" :: rest =>   -- [hv-drv] table.NewGame(backend, opts).Start() on the configuration (post-shuffle deck on the line)
+    let d := Drv.startD (start (parseCfg rest)).1
+    ({ s with drv := some d }, drvStr d none)
+  | ["drv", "call", a, i, x] =>   -- a wrapper of table.game: Pass/Pay/Fold/Check/Call/Allin/Bet/Raise(playerIdx[, chips])
+    match s.drv, actOf a, i.toInt? with
+    | some d, some act, some ii =>
+      -- `GameState.GetPlayer(idx)` answers nil for a negative index as for one beyond the players: ErrPlayerNotInGame
+      let (d', e) := if ii < 0 then (d, some Drv.DErr.playerNotInGame) else Drv.call d (.act ii.toNat act (x.toInt?.getD 0))
+      ({ s with drv := some d' }, drvStr d' e)
+    | _, _, _ => (s, "bad")
+  | ["drv", "call", "ready", i] =>
+    match s.drv, i.toInt? with
+    | some d, some ii =>
+      let (d', e) := if ii < 0 then (d, some Drv.DErr.playerNotInGame) else Drv.call d (.ready ii.toNat)
+      ({ s with drv := some d' }, drvStr d' e)
+    | _, _ => (s, "bad")
   | "sm" :: "new" :: [m] => let sm := SM.new (m.toNat?.getD 0); ({ s with sm := sm }, smStr sm none none)
   | ["sm", "query"] => (s, smStr s.sm none none)   -- read-only queries of the seat manager: nothing changes
   | ["sm", "hop"] => (s, smStr s.sm none none)   -- a save / restore of the seat manager (`ApplyStates` of its own state): nothing changes
